@@ -142,9 +142,8 @@ def regroupLoop (set : LabeledData ι κ) (numberOfPartitions : Nat) (assign : L
 /-- net effect of `regroupLoop` (specification):
 `assign[j] = (original position, fold)` in processing order.  Fold p receives its elements in
 processing order, cut into the batch sizes `batchPartitioning` computed for it.
-The new set carries the shapes of the old one (the property demands it; the C++ as found builds the new
-set from `LabeledData(numBatches)` and forgets them — finding F11 — so the correspondence reports a
-violation until that is repaired). -/
+The new set carries the shapes of the old one (`newSet.inputShape() = set.inputShape()`; finding F11, repaired in
+/repo e494cb4f). -/
 def regroup (set : LabeledData ι κ) (numberOfPartitions : Nat) (assign : List (Nat × Nat)) (batchSize : Nat) :
     R (CVFolds ι κ) := do
   require (assign.all fun a => a.2 < numberOfPartitions)
